@@ -19,12 +19,12 @@ if (RXCFG.deopt) {
 }
 var RE = null, PAT = "none";
 
-function dec(s) { return s.replace(/H/g, HI).replace(/L/g, LO); }
+function dec(s) { return s.replace(/H/g, HI).replace(/L/g, LO).replace(/n/g, "\n"); }
 function enc(s) {
   var o = "";
   for (var i = 0; i < s.length; i++) {
     var c = s.charCodeAt(i);
-    o += c === 0xD835 ? "H" : c === 0xDCB3 ? "L" : c < 128 ? s.charAt(i) : "?" + c.toString(16);
+    o += c === 0xD835 ? "H" : c === 0xDCB3 ? "L" : c === 10 ? "n" : c < 128 ? s.charAt(i) : "?" + c.toString(16);
   }
   return o;
 }
